@@ -23,10 +23,7 @@ Proof. intros W. destruct (from_pkg_spec c W) as (s & E & _ & _ & M). exists s. 
 (* a parsed text *)
 Theorem C04_leaf t s : wf_text t -> parse t = Ret s -> Forall tilde_safe (ranges_of s) ->
   forall v, final v -> spec_contains s v = Ret (text_sem t v).
-Proof.
-  intros W E Ht v Fv. destruct (parse_spec t W) as (s' & E' & C & M & _). rewrite E in E'. injection E' as <-.
-  rewrite (contains_spec s v C (conj (parse_simp_ok t s W E) Ht) Fv), (M v Fv). reflexivity.
-Qed.
+Proof. exact (leaf_contains t s). Qed.
 
 (* every &,|,~ expression over parsed texts *)
 Theorem C04_closure txt env e :
